@@ -528,7 +528,9 @@ theorem tTermWake_lock {ts ts' : TState} {id reason : Nat} (hh : tTermWake ts id
 theorem tstep_lock {ts ts' : TState} {g : TSeg} (hh : tstep ts g = .ok ts') : LockStep ts ts' := by
   unfold tstep at hh
   split at hh
-  · cases hh; exact LockStep.of_eq rfl rfl
+  · split at hh
+    · cases hh; exact LockStep.of_eq rfl rfl
+    · cases hh
   · exact tExecArrive_lock hh
   · exact tWaitArrive_lock hh
   · exact tStreamWake_lock hh
